@@ -16,7 +16,7 @@ Known == {"Reset", "TPutBegin", "TPutEnd", "TPutAck", "TTake", "TCopied", "CopyF
           "CDeleteBegin", "CExit", "CDeleted", "EmptyBegin", "EmptyEnd", "IFReset", "DefReset", "CPauseBegin",
           "CPauseEnd", "TPauseBegin", "TPauseEnd", "CPutBegin", "CRecv", "KRecv", "KSample", "IFStart", "IFPush",
           "IFPop", "TouchCalc", "FinDone", "ReqStart", "ReqExiting", "ReqClamp", "DefStart", "DefPush", "DefPop",
-          "ScanIF", "ScanDef", "ScanTimedOut", "KSub", "KIdent", "KEval", "KRdyBegin", "KRdyEnd", "Send", "KCmd",
+          "ScanIF", "ScanDef", "ScanTimedOut", "KSub", "KIdent", "KEval", "KRdyBegin", "KRdyEnd", "KRdyDone", "Send", "KCmd",
           "HRecv", "HPubAck", "HStatsT", "HStatsC", "HStatsK", "HEnd"}
 
 TraceInit == Init /\ l = 1 /\ TLCSet(1, 1) /\ TLCSet(2, <<>>)
@@ -46,10 +46,10 @@ TNext ==
   \/ IsEvent("IFReset") /\ AReset(E.c, "F")
   \/ IsEvent("DefReset") /\ AReset(E.c, "D")
   \/ IsEvent("CPauseBegin") /\ ACPauseBegin(E.c, E.p)
-  \/ IsEvent("CPauseEnd") /\ ACPauseEnd(E.c, E.p)
+  \/ IsEvent("CPauseEnd") /\ ACPauseEnd(E.c, E.p, l, E.now)
   \/ IsEvent("TPauseBegin") /\ ATPauseBegin(E.t, E.p)
   \/ IsEvent("TPauseEnd") /\ ATPauseEnd(E.t, E.p)
-  \/ IsEvent("CPutBegin") /\ ACPutBegin(E.c, E.id, E.att)
+  \/ IsEvent("CPutBegin") /\ ACPutBegin(E.c, E.id, E.att, E.now)
   \/ IsEvent("CRecv") /\ (IF E.def THEN ACRecvDeferred(E.c, E.id, E.now) ELSE UNCHANGED vars)
   \/ IsEvent("KRecv") /\ AKRecv(E.k, E.c, E.id, E.att)
   \/ IsEvent("KSample") /\ AKSample(E.k, E.c, E.id)
@@ -69,9 +69,10 @@ TNext ==
   \/ IsEvent("ScanTimedOut") /\ AScanTimedOut(E.c, E.id, E.k)
   \/ IsEvent("KIdent") /\ AKIdent(E.k, E.tmo, E.sample)
   \/ IsEvent("KSub") /\ AKSub(E.k, E.c)
-  \/ IsEvent("KEval") /\ AKEval(E.k, E.ready, E.rdy, E.inflight, E.paused)
+  \/ IsEvent("KEval") /\ AKEval(E.k, E.ready, E.rdy, E.inflight, E.paused, l)
   \/ IsEvent("KRdyBegin") /\ AKRdyBegin(E.k, E.n)
   \/ IsEvent("KRdyEnd") /\ AKRdyEnd(E.k, E.n)
+  \/ IsEvent("KRdyDone") /\ AKRdyDone(E.k, l, E.now)
   \/ IsEvent("Send") /\ ASend(E.k, E.c, E.id, E.att, E.crc, E.len, E.ts)
   \/ IsEvent("KCmd") /\ AKCmd(E.k, E.cmd, E.arg, E.err)
   \/ IsEvent("HRecv") /\ (IF E.k = -1 THEN UNCHANGED vars ELSE AHRecv(E.k, E.id, E.att, E.crc, E.len, E.ts))
